@@ -358,8 +358,16 @@ class TimingEngine:
         """
         tagged_time = (time, event_tag)
 
-        # Same caveat as `time_at`
-        prior_state_index = max(0, bisect(self._tagged_times, tagged_time) - 1)
+        # Same caveat as `time_at`. Events that share a time are in beat order,
+        # not necessarily tag order (e.g. a stop inside a warp), so search by
+        # time alone, then step back over same-time events tagged later than
+        # `event_tag`.
+        prior_state_index = bisect(self._tagged_times, (time, max(EventTag))) - 1
+        while prior_state_index > 0 and (
+            self._tagged_times[prior_state_index] > tagged_time
+        ):
+            prior_state_index -= 1
+        prior_state_index = max(0, prior_state_index)
         prior_state: TimingState = self._state_machine[prior_state_index]
         prior_state_beat = prior_state.event.beat
 
